@@ -77,7 +77,7 @@ func main() {
 	}
 	var reps []*FuncReport
 	for _, fn := range fns {
-		reps = append(reps, ex.verifyFunc(fn))
+		reps = append(reps, ex.verifyAll(fn)...)
 	}
 	if *only == "" {
 		ex.lemmaObligations()
@@ -98,7 +98,11 @@ func main() {
 	}
 	smtDir := filepath.Join(verifDir, "out", "smt", *prop)
 	os.RemoveAll(smtDir)
+	tD := time.Now()
 	stats := ex.Discharge(smtDir, tmo, seed, 12, *tier == "thorough")
+	if os.Getenv("GOVC_DEBUG") != "" {
+		fmt.Fprintf(os.Stderr, "discharge took %.1fs\n", time.Since(tD).Seconds())
+	}
 	if *dump {
 		for _, o := range ex.obls {
 			fmt.Printf("%-8s %-10s %s  [%s %.2fs]\n", o.Status, o.Kind, o.Name, o.Solver, o.Seconds)
